@@ -23,7 +23,11 @@ def run(ctx):
         rows = ni.rows_from_tlc(ctx, "NeoVMInt_Rowst.cfg" if ctx.thorough else "NeoVMInt_Rows.cfg")
         n_tlc = len(rows)
         rows += ni.random_rows(ctx.rng, 5000 if ctx.thorough else 800)
+    alias_rows = [r for r in rows if r.get("kind") == "alias"]
+    rows = [r for r in rows if r.get("kind") != "alias"]
     for i, r in enumerate(rows):
+        r["id"] = i
+    for i, r in enumerate(alias_rows):
         r["id"] = i
     if not rows:
         ctx.infra("no rows")
@@ -36,11 +40,37 @@ def run(ctx):
         return finish(ctx, {}, 0)
     obs = ni.run_go(ctx, be, "TestVerifIntOps", rows, "exec") + ni.run_go(ctx, bt, "TestVerifIntVal", rows, "types")
 
+    aobs = ni.run_alias(ctx, be, alias_rows) if alias_rows else []
+
     # ---- 4. classify with the mirror (scheduling only)
     conform = {}   # tuple -> example (row, rep)
     suspects = {}  # key -> {tuple: (row, rep)}
     n_exec = 0
     noncanon = 0
+    n_alias = 0
+    for o in aobs:          # "operands are values" rows: result as usual, plus every kept reference unchanged
+        if not o.get("built"):
+            continue
+        n_exec += 1
+        n_alias += 1
+        row = alias_rows[o["id"]]
+        rep = "kept-" + row["keep"]
+        if o.get("panic"):
+            ctx.violation("%s:%s:%s:panic" % (row["op"], "/".join(ni.class_of(a) for a in row["arg"]), rep),
+                          "Go panic %r on %s %s" % (o["panic"], row["op"], row["arg"]), {"rows": [strrow(row)], "rep": rep})
+            continue
+        gf = bool(o["fault"])
+        gv = 0 if gf else int(o["val"])
+        ef, ev = ni.mirror(row["op"], row["arg"])
+        t = (row["op"], tuple(row["arg"]), gf, gv)
+        if gf == ef and (gf or gv == ev):
+            conform.setdefault(t, (row, rep))
+        else:
+            suspects.setdefault(ni.finding_key(row, rep, gf, gv, ef, ev), {}).setdefault(t, (row, rep))
+        for i, k in enumerate(o.get("kept") or []):
+            if int(k) != row["arg"][i]:
+                suspects.setdefault("%s:operand-aliasing:%s:kept-reference-changed" % (row["op"], row["keep"]), {}) \
+                    .setdefault(("KEPT", (row["arg"][i],), False, int(k)), (row, rep))
     for o in obs:
         if not o.get("built"):
             continue
@@ -141,6 +171,9 @@ def run(ctx):
                     detail = "%s %s (%s, rep=%s): Go %s, specification %s; %d outcome(s) of this class refuted by Apalache" % (
                         row["op"], [str(a) for a in row["arg"]], "/".join(row["cls"]), rep,
                         "FAULT" if t0[2] else t0[3], "FAULT" if ef else ev, len(suspects[key]))
+                    if t0[0] == "KEPT":
+                        detail = "%s %s (%s): the second reference (%s) to operand %s reads %s after the opcode; %d case(s) refuted by Apalache (NeoVMInt!Kept)" % (
+                            row["op"], [str(a) for a in row["arg"]], "/".join(row["cls"]), rep, t0[1][0], t0[3], len(suspects[key]))
                     ctx.violation(key, detail, {"rows": [strrow(rr[0]) for (_, rr) in mine[:20]], "rep": rep})
             elif st == "violation":
                 ctx.infra("MODEL-DRIFT: python mirror disagrees with the specification on a row of %s (keys %s)" % (j["name"], j["keys"][:5]))
@@ -165,7 +198,7 @@ def run(ctx):
         "rows_enumerated_by_tlc": sum(1 for r in rows if r["src"] == "tlc"), "rows_random": sum(1 for r in rows if r["src"] == "random"),
         "distinct_conforming_outcomes": len(conform), "suspect_classes": sorted(suspects.keys()),
         "apalache_modules": len(jobs), "apalache_modules_discharged": discharged, "apalache_rows": len(exprs) + len(flat),
-        "bitwise_rows_evaluated_by_tlc": len(bit_tuples), "noncanonical_results": noncanon,
+        "bitwise_rows_evaluated_by_tlc": len(bit_tuples), "operands_are_values_rows": n_alias, "noncanonical_results": noncanon,
         "apalache_cmd": cmd, "laws_states": laws.distinct,
     }, n_exec)
 
